@@ -911,7 +911,7 @@ func (t *tScreen) drawCell(x, y int) int {
 		// URL string can be long, so don't send it unless we really need to
 		if t.enterUrl != "" && t.curstyle != style {
 			if style.url != "" {
-				t.TPuts(ti.TParm(t.enterUrl, style.url, style.urlId))
+				t.putsText(t.enterUrl, style.url, style.urlId)
 			} else {
 				t.TPuts(t.exitUrl)
 			}
@@ -1023,6 +1023,15 @@ func (t *tScreen) TPuts(s string) {
 	} else {
 		t.ti.TPuts(t.tty, s)
 	}
+}
+
+// putsText emits a capability that carries text of the application (a
+// title, a URL).  Only the capability is subject to padding; the text is not
+// part of it and is written as it is, even if it happens to contain "$<5>".
+func (t *tScreen) putsText(capability string, text ...interface{}) {
+	var b bytes.Buffer
+	t.ti.TPuts(&b, capability)
+	t.writeString(t.ti.TParm(b.String(), text...))
 }
 
 func (t *tScreen) Show() {
@@ -2098,7 +2107,7 @@ func (t *tScreen) engage() error {
 	t.TPuts(ti.DisableAutoMargin)
 	t.TPuts(ti.Clear)
 	if t.title != "" && t.setTitle != "" {
-		t.TPuts(t.ti.TParm(t.setTitle, t.title))
+		t.putsText(t.setTitle, t.title)
 	}
 
 	t.wg.Add(2)
@@ -2193,7 +2202,7 @@ func (t *tScreen) SetTitle(title string) {
 	t.Lock()
 	t.title = title
 	if t.setTitle != "" && t.running {
-		t.TPuts(t.ti.TParm(t.setTitle, title))
+		t.putsText(t.setTitle, title)
 	}
 	t.Unlock()
 }
